@@ -275,7 +275,7 @@ func c11Width(t *rapid.T, maxW int) expr.Width {
 func TestC11(t *testing.T) {
 	col := ev.New("C11", "rapid: each of 24 gadget constructors of pkg/expr/exprtools x width in 1..64 + {127,128,255} + a tenth anywhere in 1..255 "+
 		"(documented limits respected: SignedMul w<=127, MaskBits cnt<=8w, SignExtend bit<8w) x operands that are "+
-		"boundary-biased constants (70%) or symbolic expressions with register/memory loads (30%), of widths equal to "+
+		"boundary-biased constants (70%), results of earlier gadgets of the same case (nesting) or symbolic expressions with register/memory loads (30%), of widths equal to "+
 		"or different from w (equal for the gadgets that take signs from operand widths); the gadget tree is evaluated "+
 		"by the math/big evaluator under 2 valuations, and constant-folded when all operands are constants, and "+
 		"compared with a direct two's-complement reference; WidthGadgetArg is checked on gadgets and look-alikes. "+
@@ -284,6 +284,9 @@ func TestC11(t *testing.T) {
 	gadgets := c11Gadgets()
 
 	rapid.Check(t, func(t *rapid.T) {
+		// gadget results are ordinary expressions: later gadgets of the same case
+		// take them as operands now and then (gadgets nested in gadgets)
+		var built []expr.Expr
 		for rep := 0; rep < 4; rep++ {
 			col.Case()
 			gi := rapid.IntRange(0, len(gadgets)).Draw(t, "gadget")
@@ -301,6 +304,12 @@ func TestC11(t *testing.T) {
 			allConst := true
 			for i := range args {
 				args[i] = c11Operand(t, w, g.ownWidth, fmt.Sprintf("a%d", i))
+				if len(built) > 0 && rapid.IntRange(0, 4).Draw(t, fmt.Sprintf("a%d_nested", i)) == 0 {
+					if b := built[rapid.IntRange(0, len(built)-1).Draw(t, fmt.Sprintf("a%d_which", i))]; !g.ownWidth || b.Width() == w {
+						args[i] = b
+						col.Class("operand-is-gadget-result")
+					}
+				}
 				if irsem.HasLoad(args[i]) {
 					allConst = false
 				}
@@ -354,6 +363,7 @@ func TestC11(t *testing.T) {
 					break
 				}
 			}
+			built = append(built, e)
 			col.Class(g.name)
 			col.Nontrivial(cell)
 			if col.WantSample() {
